@@ -22,6 +22,13 @@ def one(m):
     detected = []
     bad = []
     for prop, rc, text in outs:
+        if rule == "UNDECIDED":
+            # a variant the analysis honestly cannot decide: exit 2 (never a silent pass)
+            if rc == 2:
+                detected.append(prop + "(undecided)")
+            elif rc != 0:
+                bad.append("%s rc=%d" % (prop, rc))
+            continue
         if rc == 1 and (rule is None or ("[%s]" % rule) in text or rule in text):
             detected.append(prop)
         elif rc == 2:
